@@ -19,6 +19,7 @@ From KV Require Import TxnAtomic.
 From KV Require Import Service.
 From KV Require Import Repl.
 From KV Require Import Registry.
+From KV Require Import MemPool.
 From KV.gen Require Import RegFacts.
 Extraction Language OCaml.
 (* Coq's String module (identifiers of the C07 lock table) must not shadow OCaml's: it is emitted as String0 *)
@@ -33,6 +34,7 @@ Separate Extraction
   Memtable.mt_iter_entries Memtable.seek_ge Memtable.mt_put Memtable.mt_del Memtable.mt_get
   Memtable.mt_set_imm Memtable.mt_empty
   Memtable.h_new Memtable.h_first Memtable.h_seek Memtable.h_next
+  MemPool.pl_empty MemPool.pl_put MemPool.pl_del MemPool.pl_switch MemPool.pl_tables MemPool.pl_get
   Engine.init Engine.put Engine.del Engine.apply_batch Engine.tx_commit Engine.get Engine.flush
   Engine.reopen Engine.run Engine.buffer_ops
   Engine.mixed_batch Engine.merge_batch
